@@ -269,6 +269,34 @@ pub fn edge_family() -> Vec<(String, ModelSpec)> {
     models
 }
 
+/// Sparse large-window models: the weight vectors are long (window >= 8) but only their first
+/// few entries are non-zero, so any "effective length" shortcut (trimmed zeros) meets the
+/// variable-length arithmetic for patterns hanging over the sentence start.
+pub fn sparse_large_window_family() -> Vec<(String, ModelSpec)> {
+    let mut out = vec![];
+    for w in [8u8, 9, 12] {
+        for nz in [1usize, 3, 8] {
+            for kind in 0..3u8 {
+                let mut m = ModelSpec { bias: 1, char_window_size: if kind == 1 { 2 } else { w }, type_window_size: if kind == 1 { w } else { 2 }, ..Default::default() };
+                let n = 2 * w as usize; // unigram: 2W weights
+                let weights: Vec<i32> = (0..n).map(|k| if k < nz { 100 + k as i32 * 7 } else { 0 }).collect();
+                match kind {
+                    0 => m.char_ngram_model.push(crate::mirror::NgramData { ngram: "a".into(), weights }),
+                    1 => m.type_ngram_model.push(crate::mirror::NgramData { ngram: vec![2], weights }),
+                    _ => {
+                        m.char_ngram_model.push(crate::mirror::NgramData { ngram: "a".into(), weights: weights.clone() });
+                        let mut w2 = weights[..n - 1].to_vec();
+                        w2.reverse(); // non-zeros at the END for the bigram
+                        m.char_ngram_model.push(crate::mirror::NgramData { ngram: "ba".into(), weights: w2 });
+                    }
+                }
+                out.push((format!("sparse-large-window w={w} nonzero={nz} kind={kind}"), m));
+            }
+        }
+    }
+    out
+}
+
 /// F3: large windows; single- and two-entry models; long runs.
 fn f3(tier: Tier) -> (Vec<Built>, Vec<Vec<char>>) {
     let mut ms = vec![];
@@ -390,6 +418,9 @@ pub fn run(tier: Tier) -> ! {
         chk.set("f6_texts", json!(t6.len()));
         ms6.par_iter().for_each(|b| check_model(&chk, b, &t6, true));
     }
+    let f7: Vec<Built> = sparse_large_window_family().into_iter().map(|(desc, spec)| Built { spec, desc }).collect();
+    fam_counts.insert("F7-sparse-large-window".into(), json!(f7.len()));
+    f7.par_iter().for_each(|b| check_model(&chk, b, &texts, true));
     let (ms, t3) = f3(tier);
     fam_counts.insert("F3-large-windows".into(), json!(ms.len()));
     chk.set("f3_texts", json!(t3.len()));
